@@ -1,6 +1,7 @@
 (* C09 — the coordinate conversion helpers are mutual inverses (angles compared through
    (cos, sin), i.e. modulo 2 pi) and follow the documented ranges.  torch.atan2 is a Section
-   variable with its defining contract as hypotheses (the Reals library has no atan2). *)
+   variable with its defining contract as hypotheses; at the end the contract is discharged for the
+   concrete lib/Atan2.atan2 (the Reals library has no atan2 of its own). *)
 From Coq Require Import Reals List Lra Lia ZArith Field.
 From ND.lib Require Import Expr Tac.
 From ND.gen Require Import Gen_C09.
@@ -125,3 +126,55 @@ Section Conv.
     split; [apply sqrt_pos | apply atan2_range].
   Qed.
 End Conv.
+
+(* The atan2 contract is satisfiable: lib/Atan2.v defines a two-argument arctangent over the Coq reals and
+   proves the four contract clauses, so the conversion theorems hold without any hypothesis about atan2 for
+   that function (the remaining assumption is only that torch.atan2 computes it up to rounding, which the
+   harness samples on every run). *)
+From ND.lib Require Atan2.
+
+Section Concrete.
+  Variable penv : nat -> R.
+  Variable fenv : nat -> list nat -> list R -> R.
+  Local Notation A := Atan2.atan2.
+
+  Theorem s2c_c2s_atan2 x y z : x * x + y * y <> 0 ->
+    let q := s2c penv fenv (c2s A penv fenv (env3 x y z)) in q 0%nat = x /\ q 1%nat = y /\ q 2%nat = z.
+  Proof. apply s2c_c2s; [exact Atan2.atan2_cos | exact Atan2.atan2_sin]. Qed.
+
+  Theorem c2s_s2c_atan2 r th ph : 0 < r -> 0 < sin th ->
+    let q := c2s A penv fenv (s2c penv fenv (env3 r th ph)) in
+    q 0%nat = r /\ cos (q 1%nat) = cos th /\ sin (q 1%nat) = sin th /\
+    cos (q 2%nat) = cos ph /\ sin (q 2%nat) = sin ph.
+  Proof. apply c2s_s2c; [exact Atan2.atan2_cos | exact Atan2.atan2_sin]. Qed.
+
+  Theorem c2s_ranges_atan2 x y z :
+    let q := c2s A penv fenv (env3 x y z) in 0 <= q 0%nat /\ 0 <= q 1%nat <= PI /\ - PI < q 2%nat <= PI.
+  Proof. apply c2s_ranges; [exact Atan2.atan2_range | exact Atan2.atan2_upper]. Qed.
+
+  Theorem cyl2c_c2cyl_atan2 x y z : x * x + y * y <> 0 ->
+    let q := cyl2c penv fenv (c2cyl A penv fenv (env3 x y z)) in q 0%nat = x /\ q 1%nat = y /\ q 2%nat = z.
+  Proof. apply cyl2c_c2cyl; [exact Atan2.atan2_cos | exact Atan2.atan2_sin]. Qed.
+
+  Theorem c2cyl_cyl2c_atan2 rho ph z : 0 < rho ->
+    let q := c2cyl A penv fenv (cyl2c penv fenv (env3 rho ph z)) in
+    q 0%nat = rho /\ cos (q 1%nat) = cos ph /\ sin (q 1%nat) = sin ph /\ q 2%nat = z.
+  Proof. apply c2cyl_cyl2c; [exact Atan2.atan2_cos | exact Atan2.atan2_sin]. Qed.
+
+  Theorem c2cyl_ranges_atan2 x y z :
+    let q := c2cyl A penv fenv (env3 x y z) in 0 <= q 0%nat /\ - PI < q 1%nat <= PI.
+  Proof. apply c2cyl_ranges; exact Atan2.atan2_range. Qed.
+
+  (* with theta in the open interval (0, pi) the spherical round trip recovers the angle itself, not only
+     its cosine and sine: both lie in [0, pi] where cos is injective *)
+  Theorem c2s_s2c_theta_exact r th ph : 0 < r -> 0 < th < PI ->
+    c2s A penv fenv (s2c penv fenv (env3 r th ph)) 1%nat = th.
+  Proof.
+    intros Hr Hth. assert (Hs : 0 < sin th) by (apply sin_gt_0; lra).
+    destruct (c2s_s2c_atan2 r th ph Hr Hs) as (_ & Hc & _).
+    destruct (c2s_ranges_atan2 (s2c penv fenv (env3 r th ph) 0%nat) (s2c penv fenv (env3 r th ph) 1%nat) (s2c penv fenv (env3 r th ph) 2%nat)) as (_ & Hrange & _).
+    cbv zeta in Hc.
+    apply cos_inj; [ | lra | exact Hc].
+    cbv zeta in Hrange. unfold c2s in *. cbv beta zeta in *. cbn [env3] in *. exact Hrange.
+  Qed.
+End Concrete.
